@@ -14,7 +14,8 @@ for m in sorted(glob.glob(os.path.join(ROOT, 'seeded', '*', 'meta.json'))):
     det = re.sub(r'\s+', ' ', det).strip()[:170]
     rows.append('| %s | %s | %s | %s (%s) | %s |' % (d['id'], d['property'], ', '.join(files), d['outcome'], d.get('tier', 'quick'), (d.get('comment', '') + ' ' + det).strip().replace('|', '/')))
 table = '\n| seed | property | files changed | outcome (tier) | obligation that reports it / why not |\n|---|---|---|---|---|\n' + '\n'.join(rows) + '\n'
-n = len(rows); c = sum(1 for r in rows if '| caught' in r); u = sum(1 for r in rows if '| undecided' in r); mi = sum(1 for r in rows if '| missed' in r)
+outs = [json.load(open(m))['outcome'] for m in sorted(glob.glob(os.path.join(ROOT, 'seeded', '*', 'meta.json')))]
+n = len(outs); c = outs.count('caught'); u = outs.count('undecided'); mi = outs.count('missed')
 table += '\n%d seeded changes: %d caught (VIOLATION), %d undecided (exit 2: not a pass, not an alarm), %d missed (exit 0).\n' % (n, c, u, mi)
 p = os.path.join(ROOT, 'DESIGN.md'); s = open(p).read()
 if 'SEED_TABLE_PLACEHOLDER' in s:
